@@ -221,6 +221,43 @@ def report(chk, family, kind, variant, text, mode, fails):
             chk.tie_broken("model-vs-implementation " + fk, "%s  [scenario (%s): %s]" % (d2, variant, hl.canon(small)))
 
 
+def distributed_slice(chk, quick):
+    """Hamiltonian::prepare/compute on P > 1 ranks (harness h_c06 under mpiexec): on every rank every block's eigenvalues and
+    eigenvectors must be those of the single-rank run (which the main part of this check certifies against the full matrix),
+    in particular normalised 1x1 blocks.  Hangs are C06's business: a launch that times out is only noted here."""
+    import C06
+    h = pv.build_harness("h_c06")
+    models = [("two-site", C06.MODEL), ("atom (1x1 and 2x2 blocks)", C06.ATOM),
+              ("decoupled sites (many 1x1 blocks)", "site A 1 2\nsite B 1 2\naddCoulombS A 1 -0.25\naddCoulombS B 2 -0.5\naddLevel B 0.125\nbeta 2\n")]
+    for name, model in models:
+        rc, ranks, err = C06.launch(h, 1, "ham\n", threads=1, timeout=120, model=model)
+        ref = C06.parse(ranks[0])
+        if rc != 0 or not ref["done"]:
+            chk.tie_broken("h_c06 single-rank reference (C03 distributed slice)", "rc=%s %s" % (rc, err))
+            continue
+        for P in ((2, 3) if quick else (2, 3, 5, 7)):
+            rc, ranks, err = C06.launch(h, P, "ham\n", threads=1, timeout=60, model=model)
+            chk.case("mpi %s %d" % (name, P), "distributed diagonalisation P=%d %s" % (P, name), True, None)
+            if rc != 0:
+                chk.notes.append("distributed slice: launch P=%d on %s ended with rc=%s (termination is decided by C06)" % (P, name, rc))
+                continue
+            for r in sorted(ranks):
+                o = C06.parse(ranks[r])
+                for b in ref["eig"]:
+                    bad = None
+                    if not C06.close(o["eig"].get(b, []), ref["eig"][b], 1e-12):
+                        bad = "eigenvalues"
+                    elif not C06.close(o["vec"].get(b, []), ref["vec"][b], 1e-9):
+                        bad = "eigenvectors"
+                    if bad:
+                        chk.violation("distributed-%s|%s" % (bad, name),
+                                      "after Hamiltonian::compute on %d ranks, rank %d reports %s of block %s that differ from the single-rank run (%s vs %s)"
+                                      % (P, r, bad, b, (o["vec"] if bad == "eigenvectors" else o["eig"]).get(b, [])[:4],
+                                         (ref["vec"] if bad == "eigenvectors" else ref["eig"])[b][:4]),
+                                      {"harness": "h_c06", "P": P, "model": model, "commands": "ham\n", "threads": 1})
+                        break
+
+
 def run(chk):
     quick = chk.tier == "quick"
     ok, log = chk.prove(["extract/Extract_C03.vo", "extract/Extract_ED.vo"])
@@ -271,6 +308,7 @@ def run(chk):
                                               "note": "numpy.linalg.eigvalsh of the full-space matrix vs reported eigenvalues; additional testing layer, never decides"}
     if certs:
         chk.extra["certificate_max"] = {"residual": max(c[0] for c in certs), "unitarity": max(c[1] for c in certs), "scenarios": len(certs)}
+    distributed_slice(chk, quick)
     chk.rule = ("scenario = model family (Hubbard atom, two-site incl. spin-flip, Anderson, free degenerate, atomic limit, Kanamori, exchange, pairing, spinless 3-orbital) "
                 "x partition (default analysis, symmetries ignored, custom integrals of motion: N, S_z, N and S_z, per-site charges) x build (real; complex with complex hoppings); "
                 "distinct = distinct canonical scenario text; non-trivial = at least one block larger than 1x1; the signature names family, partition and number of accepted "
